@@ -183,7 +183,7 @@ func runC11(res *lib.Result, tier string, seed int64, args []string) error {
 			}
 			if problem != "" {
 				if excused {
-					res.HitKnown("C11-K1", "rename started from / touching an occurrence in a C05-K1/K2 or C06-K2 situation rewrites a set that is not the variable's binding class, so the renamed program binds differently", caseText+"\n"+problem)
+					res.HitKnown("C11-K1", "rename started from / touching an occurrence in a C05-K1/K2 situation rewrites a set that is not the variable's binding class, so the renamed program binds differently", caseText+"\n"+problem)
 					res.Dist("hit.C11-K1")
 				} else {
 					res.AddViolation("impl-vs-spec", "applying the rename changes the binding structure: "+problem, caseText, false)
